@@ -277,11 +277,12 @@ static void do_op(char op, int n)
 	}
 	else
 	{
-		/* exclusive work: serialise (writes the node's cached printbuf), deep copy, compare */
+		/* exclusive work: serialise (writes the node's cached printbuf), parse the text back into a
+		 * private tree (objects: hashing, allocation), compare, release */
 		const char *s = json_object_to_json_string_ext(o, JSON_C_TO_STRING_PLAIN);
 		int bad = (!s || strcmp(s, expect[n]) != 0);
-		struct json_object *c = NULL;
-		if (json_object_deep_copy(o, &c, NULL) != 0 || !c || !json_object_equal(o, c))
+		struct json_object *c = s ? json_tokener_parse(s) : NULL;
+		if (!c || !json_object_equal(o, c))
 			bad = 1;
 		if (c && json_object_put(c) != 1)
 			bad = 1;
@@ -403,9 +404,14 @@ static void *seed_thread(void *arg)
 	barrier();
 	/* first object of this thread: the first insertion computes the first hash */
 	struct json_object *obj = json_object_new_object();
+	/* even threads: the very first hash of the process is observed directly; odd threads: it is the
+	 * hash under which the first member is filed (a later lookup must find it) */
+	if (t % 2 == 0)
+		h_early[t] = lh_get_hash(json_object_get_object(obj), keys[0]);
 	for (int k = 0; k < seedK; k++)
 		json_object_object_add(obj, keys[k], json_object_new_int(k));
-	h_early[t] = lh_get_hash(json_object_get_object(obj), keys[0]);
+	if (t % 2 != 0)
+		h_early[t] = lh_get_hash(json_object_get_object(obj), keys[0]);
 	notfound[t] = lookups(obj);
 	barrier();
 	h_late[t] = lh_get_hash(json_object_get_object(obj), keys[0]);
